@@ -310,7 +310,7 @@ async fn sdk_presigned(g: &mut Rng, secrets: &HashMap<String, String>, delta: i6
     use aws_sdk_s3::presigning::PresigningConfig;
     let ak = if g.chance(1, 2) { AK } else { AK2 };
     let host = "s3.verif.example:9000";
-    let cfg = crate::sdk::ClientCfg { access_key: ak.into(), secret: secrets[ak].clone(), region: "eu-central-1".into(), endpoint: format!("http://{host}"), path_style: true };
+    let cfg = crate::sdk::ClientCfg { access_key: ak.into(), secret: secrets[ak].clone(), region: "eu-central-1".into(), endpoint: format!("http://{host}"), path_style: true, anonymous: false };
     let client = crate::sdk::sdk_client(&cfg, None);
     let start = std::time::UNIX_EPOCH + std::time::Duration::from_secs((now_unix() + delta).max(0) as u64);
     let pc = PresigningConfig::builder().start_time(start).expires_in(std::time::Duration::from_secs(expires)).build().ok()?;
